@@ -66,7 +66,13 @@ func oracle(r *hx.Run, id string, c dialx.Case, o dialx.Obs) {
 				switch verbOf(l) {
 				case "EHLO", "HELO", "STARTTLS", "QUIT":
 				default:
-					r.Fail(id, "mandatory-tls-cleartext-"+verbOf(l), fmt.Sprintf("TLSMandatory: %q was sent before a TLS handshake completed; %s", l, what))
+					v := verbOf(l)
+					switch v {
+					case "AUTH", "MAIL", "RCPT", "DATA", "NOOP", "RSET", "VRFY", "*":
+					default:
+						v = "AUTH-DATA" // a continuation line of an AUTH exchange or message content
+					}
+					r.Fail(id, "mandatory-tls-cleartext-"+v, fmt.Sprintf("TLSMandatory: %q was sent before a TLS handshake completed; %s", l, what))
 				}
 			}
 		}
